@@ -52,9 +52,13 @@ def lha0_file(name, payload, dostime):
     body = b"-lh0-" + struct.pack("<IIIBB", len(payload), len(payload), dostime, 0x20, 0) + bytes([len(nm)]) + nm + struct.pack("<H", crc16_arc(payload))
     return bytes([len(body), sum(body) & 0xff]) + body + payload + b"\x00"
 
-def containers(rng, payload, rle_enc, tier):
+Z_SETTINGS = ((16, 1, "-"), (12, 1, "every:3000"), (10, 0, "-"), (13, 1, "every:7935"))
+
+def containers(rng, payload, rle_enc, tier, z_streams=()):
     """(tag, bytes) for every encoder setting we can produce independently"""
     out = []
+    for (mb, blk, cl), z in zip(Z_SETTINGS, z_streams):
+        out.append(("compress-b%d%s-%s" % (mb, "" if blk else "-noblock", cl.replace(":", "")), z))
     for lv in ((0, 1, 6, 9) if tier == "quick" else range(10)):
         out.append(("gzip-%d" % lv, gz_raw(payload, lv)))
     out.append(("gzip-name-comment-extra-hcrc", gz_raw(payload, 6, fname=b"song.mod", comment=b"a comment", extra=b"AB\x04\x00zzzz", hcrc=True, mtime=0x5eadbeef)))
@@ -84,12 +88,107 @@ def containers(rng, payload, rle_enc, tier):
         out.append(("arcfs-rle90", arcfs_file("song", 3, packed, payload)))
     return out
 
+# ---------------------------------------------------------------------------------------------------------------------------
+# compress (.Z): the extracted model of uncompress.c (Model/Lzw.v) against decrunch_compress itself, on streams from the extracted
+# writer over its settings, on mutated streams and on random bytes; memory and FILE streams.
+
+def lzw_payloads(rng, tier):
+    base = open(os.path.join(V.REPO, "test-dev", "data", "ode2ptk.mod"), "rb").read()
+    pays = [("ode2ptk.mod", base), ("zeros-70000", bytes(70000)), ("random-30000", bytes(rng.randrange(256) for _ in range(30000))),
+            ("two-symbols", bytes(rng.choice(b"ab") for _ in range(20000))), ("one-byte", b"x"), ("two-equal", b"zz"), ("abab", b"abababababab"),
+            ("period-257", bytes((i * 7) & 0xff for i in range(257)) * 40)]
+    files = [f for f in V.corpus_files() if 2000 < os.path.getsize(f) < 70000 and f.lower().endswith((".mod", ".xm", ".s3m", ".it"))]
+    for f in sorted(rng.sample(files, min(len(files), 3 if tier == "quick" else 25))): pays.append((os.path.relpath(f, V.REPO), open(f, "rb").read()))
+    # lengths around the 8 KiB input buffer of the decoder: the compressed size of random data is about 9/8 .. 16/8 of its length
+    for n in (7200, 7280, 7290, 14560, 14570): pays.append(("random-%d" % n, bytes(rng.randrange(256) for _ in range(n))))
+    return pays
+
+def lzw_settings(rng, tier, n):
+    out = []
+    for mb in (9, 10, 11, 12, 13, 14, 15, 16):
+        for blk in (1, 0):
+            cls = ["-"] if not blk else ["-", "every:%d" % rng.choice((50, 300, 1000)), "every:%d" % max(2, (1 << mb) - 257 + rng.choice((-1, 0, 1, 40)))]
+            for cl in cls: out.append((mb, blk, cl))
+    if tier == "quick": out = [x for x in out if x[0] in (9, 10, 12, 16) or rng.random() < 0.3]
+    return out
+
+def lzw_leg(ck, tier, rng, stats, rp):
+    model = V.ocaml_build("lzw")
+    drv = V.build_driver("lzw_drv", ["lzw_drv.c"])
+    env = V.san_env()
+    st = stats.setdefault("lzw", {"writer_streams": 0, "clear_codes": 0, "mutants": 0, "random": 0, "model_rejects": 0, "bytes_compared": 0})
+    cases = []         # (tag, zbytes, expected payload or None)
+    if rp:
+        cases = [(rp["tag"], bytes.fromhex(rp["z"]), None)]
+    else:
+        pays = lzw_payloads(rng, tier)
+        req = []; meta = []
+        for name, data in pays:
+            sets = lzw_settings(rng, tier, len(data))
+            if len(data) > 40000 or tier == "quick": sets = rng.sample(sets, min(len(sets), 6 if tier == "quick" else 12))
+            for (mb, blk, cl) in sets:
+                req.append("C %d %d %s %s" % (mb, blk, cl, data.hex())); meta.append(("%s/b%d%s/%s" % (name, mb, "" if blk else "-noblock", cl), data))
+                req.append("N %d %d %s %s" % (mb, blk, cl, data.hex()))
+        mo = V.run([model], inp="\n".join(req) + "\n", timeout=3000).stdout.split("\n")
+        for k, (tag, data) in enumerate(meta):
+            w = mo[2 * k].split(); nn = mo[2 * k + 1].split()
+            if w[0] != "Z": raise V.BuildError("lzw model: unexpected output %r" % mo[2 * k][:100])
+            z = bytes.fromhex(w[2]); st["writer_streams"] += 1; st["clear_codes"] += int(nn[2])
+            cases.append(("writer:" + tag, z, data))
+            for _ in range(1 if tier == "quick" else 3):
+                b = bytearray(z); kind = rng.random()
+                if kind < 0.5 and len(b) > 3: b[rng.randrange(3, len(b))] ^= 1 << rng.randrange(8)
+                elif kind < 0.7: del b[rng.randrange(2, len(b)):]
+                elif kind < 0.85: b += bytes(rng.randrange(256) for _ in range(rng.randrange(1, 40)))
+                else: b[2] = rng.choice((b[2] ^ 0x80, 0x89, 0x90, 0x88, 0x91, 0x9f, b[2] | 0x60))
+                cases.append(("mutant:" + tag, bytes(b), None)); st["mutants"] += 1
+        for k in range(20 if tier == "quick" else 400):
+            n = rng.choice((0, 1, 2, 3, 4, 10, 100, 3000, 9000))
+            hdr = bytes([31, 157, rng.choice((0x90, 0x8c, 0x10, 0x89, 0x9f, 0x88))]) if rng.random() < 0.9 else bytes(rng.randrange(256) for _ in range(3))
+            body = bytes((rng.randrange(256) if rng.random() < 0.5 else rng.choice((0, 0, 1, 0xff))) for _ in range(n))
+            cases.append(("random:%d" % k, (hdr + body)[:max(0, n)] if rng.random() < 0.1 else hdr + body, None)); st["random"] += 1
+    mo = V.run([model], inp="".join("D %s\n" % (z.hex() or "-") for _, z, _ in cases), timeout=3000).stdout.split("\n")
+    outs = {}
+    for mode in ("mem", "file"):
+        r = V.run([drv, mode], inp="".join("%s\n" % (z.hex() or "-") for _, z, _ in cases), env=env, timeout=3000)
+        outs[mode] = r.stdout.split("\n")
+        if r.returncode != 0:
+            k = len([l for l in outs[mode] if l.startswith("RET")])
+            ck.violation({"engine": "lzw", "tag": cases[min(k, len(cases) - 1)][0], "z": cases[min(k, len(cases) - 1)][1].hex(), "broken": "sanitizer report / crash in decrunch_compress (%s stream)" % mode, "stderr": r.stderr[-2000:]}, key="c08-lzw-crash")
+    for k, (tag, z, want) in enumerate(cases):
+        ck.count()
+        m = mo[k].split()
+        mres = None if m[0] == "FAIL" else (bytes.fromhex(m[1]) if m[1] != "-" else b"")
+        if mres is None: st["model_rejects"] += 1
+        bad = None
+        if want is not None and mres != want:
+            raise V.BuildError("the extracted uncompress(compress l) differs from l for %s: theorem uncompress_compress would be false" % tag)
+        for mode in ("mem", "file"):
+            if k >= len(outs[mode]) or not outs[mode][k].startswith("RET"): continue
+            w = outs[mode][k].split(); ret = int(w[1]); ln = int(w[3])
+            if ret != 0 and mres is not None: bad = "decrunch_compress (%s stream) returns %d, the model unpacks %d bytes" % (mode, ret, len(mres))
+            elif ret == 0 and mres is None: bad = "decrunch_compress (%s stream) returns 0 with %d bytes, the model rejects the stream" % (mode, ln)
+            elif ret == 0:
+                got = w[4]
+                exp = ("md5:" + hashlib.md5(mres).hexdigest()) if len(mres) > 65536 else (mres.hex() or "-")
+                st["bytes_compared"] += len(mres)
+                if ln != len(mres) or got != exp:
+                    i = next((i for i in range(min(ln, len(mres))) if not got.startswith("md5:") and got[2 * i:2 * i + 2] != exp[2 * i:2 * i + 2]), -1)
+                    bad = "decrunch_compress (%s stream) unpacks %d bytes, the model %d; first difference at byte %d" % (mode, ln, len(mres), i)
+            if bad: break
+        if bad:
+            ck.violation({"engine": "lzw", "tag": tag, "z": z.hex() if len(z) < 200000 else None, "what": bad,
+                          "broken": "correspondence: Model/Lzw.v (uncompress) vs src/depackers/uncompress.c" + ("; the stream comes from the proved writer, so the payload is not recovered (C08 violated on this input)" if want is not None else "")},
+                         key="c08:lzw:%s:%s" % (tag.split(":")[0], bad.split(",")[0][:40]))
+        else:
+            ck.nontrivial(("lzw", z))
+
 def main():
     tier = sys.argv[1] if len(sys.argv) > 1 else "quick"
     replay = sys.argv[sys.argv.index("--replay") + 1] if "--replay" in sys.argv else None
     ck = V.Check("C08", tier)
     rng = ck.rng
-    ck.proof_leg(["Extract/Extract_rle90.vo"])
+    ck.proof_leg(["Extract/Extract_rle90.vo", "Extract/Extract_lzw.vo"])
     drv = V.build_driver("c07_drv", ["c07_drv.c"])
     model = V.ocaml_build("rle90")
     env = V.san_env()
@@ -100,11 +199,17 @@ def main():
     stats = {"payloads": 0, "containers": 0, "by_kind": {}, "rle90_streams": 0, "rle90_ratio_min": 1.0}
     try:
         rp = json.load(open(replay)) if replay else None
-        if rp:
+        if rp and rp.get("engine") == "lzw":
+            pay = []
+        elif rp:
             pay = [(rp["payload_name"], bytes.fromhex(rp["payload_hex"]) if rp.get("payload_hex") else open(os.path.join(V.REPO, rp["payload_file"]), "rb").read())]
         else:
             files = [f for f in V.corpus_files() if 1000 < os.path.getsize(f) < 120000 and f.lower().endswith((".mod", ".xm", ".s3m", ".it", ".stm", ".mtm", ".669", ".far", ".okt", ".med", ".ptm"))]
             pay = [(os.path.relpath(f, V.REPO), open(f, "rb").read()) for f in sorted(rng.sample(files, min(len(files), 10 if tier == "quick" else 120)))]
+            # loaders that consult the size of the data they were given (mod_load.c: Mod's Grave .WOW detection, trailing data, song-only files):
+            # inside a container that size must be the payload's, not the container's
+            wow = os.path.join(V.REPO, "test-dev", "data", "m", "crystals.mod")
+            if os.path.exists(wow) and not any(n.endswith("crystals.mod") for n, _ in pay): pay.append((os.path.relpath(wow, V.REPO), open(wow, "rb").read()))
             # synthetic payloads that stress the run-length code: a valid module followed by marker bytes, runs of 254 / 255 / 256 / 509 / 1000, runs of the marker
             base = open(os.path.join(V.REPO, "test-dev", "data", "ode2ptk.mod"), "rb").read()
             tail = b"\x90" * 3 + b"A" * 254 + b"B" * 255 + b"\x90" + b"C" * 256 + b"\x90\x00" + b"D" * 509 + b"\x90" * 300 + b"E" * 1000 + bytes(range(256))
@@ -117,12 +222,20 @@ def main():
             if big:
                 f = sorted(big)[0]; pay.append((os.path.relpath(f, V.REPO), open(f, "rb").read()))
         packed_all = rle_enc_many([p for _, p in pay])
+        zmodel = V.ocaml_build("lzw")
+        zreq = [(i, st) for i, (_, p) in enumerate(pay) if len(p) <= 130000 for st in Z_SETTINGS]
+        zout = V.run([zmodel], inp="".join("C %d %d %s %s\n" % (st[0], st[1], st[2], pay[i][1].hex()) for i, st in zreq), timeout=3000).stdout.split("\n")
+        z_all = {}
+        for (i, st), l in zip(zreq, zout):
+            w = l.split()
+            if len(w) != 3 or w[0] != "Z" or w[1] != "1": raise V.BuildError("lzw writer: unexpected output %r" % l[:80])
+            z_all.setdefault(i, []).append(bytes.fromhex(w[2]))
         jobs = []       # (payload index, tag, path)
         for i, (name, payload) in enumerate(pay):
             stats["payloads"] += 1
             bare = os.path.join(tmpd, "p%03d.bin" % i); open(bare, "wb").write(payload); jobs.append((i, "bare", bare))
             stats["rle90_streams"] += 1; stats["rle90_ratio_min"] = min(stats["rle90_ratio_min"], round(len(packed_all[i]) / max(1, len(payload)), 3))
-            for tag, blob in containers(rng, payload, lambda p, i=i: packed_all[i], tier):
+            for tag, blob in containers(rng, payload, lambda p, i=i: packed_all[i], tier, z_all.get(i, ())):
                 p = os.path.join(tmpd, "c%03d-%s" % (i, tag)); open(p, "wb").write(blob); jobs.append((i, tag, p))
         inp = "".join("LP %s\nTP %s\nTF %s\n" % (p, p, p) for _, _, p in jobs)
         r = V.run([drv, "load"], inp=inp, env=env, timeout=6000)
@@ -160,6 +273,8 @@ def main():
         if r.returncode != 0:
             k = len(blocks) // 3; j = jobs[min(k, len(jobs) - 1)]
             ck.violation({"payload_name": pay[j[0]][0], "container": j[1], "broken": "sanitizer report / crash while unpacking", "stderr": r.stderr[-2000:]}, key="c08-crash")
+        if not rp or rp.get("engine") == "lzw":
+            lzw_leg(ck, tier, rng, stats, rp if rp and rp.get("engine") == "lzw" else None)
     finally:
         shutil.rmtree(tmpd, ignore_errors=True)
     ck.engine_stat("rle90", **stats)
